@@ -26,13 +26,17 @@ pub struct Case {
     /// what the program reports after simplifying the factors) reaches its inner branches
     #[serde(default)]
     pub dhw: Option<crate::dhw::DhwCase>,
+    /// explicit `ELECTRICIDAD, COGEN, <dest>, <step>` lines in the factor set (legacy files carry them;
+    /// they take precedence over the derived cogeneration factors): selector and values
+    #[serde(default)]
+    pub cogen_lines: Vec<(u8, [f32; 3])>,
 }
 
 impl Prop for C08 {
     type Case = Case;
     const ID: &'static str = "C08";
     fn rule() -> String {
-        "cases = building() (output lines anywhere incl. first, auxiliaries as only electricity, cogeneration with and without declared input, nEPB uses in any carrier, surplus ambient/solar) x prepared factor sets (regulatory and user); \
+        "cases = building() (output lines anywhere incl. first, auxiliaries as only electricity, cogeneration with and without declared input, nEPB uses in any carrier, surplus ambient/solar) x prepared factor sets (regulatory and user; 30 %: with explicit ELECTRICIDAD, COGEN lines as legacy files have); \
          oracle = energy_performance(c, f) vs energy_performance(c, f.strip(c)) under catch_unwind: no panic, Ok stays Ok, flat views equal within tolerance, the DHW indicator computed from either result is the same value or the same error, strip only removes; 25 % of the buildings come from the DHW grammar; \
          non-trivial = strip removed >= 1 factor and the building exports or cogenerates"
             .into()
@@ -48,8 +52,13 @@ impl Prop for C08 {
         p.cogen_heavy = true;
         p.aux_non_epb = true;
         p.with_needs = true;
-        (bf_case(p, 50), prop::bool::weighted(0.1), proptest::option::weighted(0.25, crate::dhw::dhw_case(12)))
-            .prop_map(|(base, d, dhw)| Case { base, drop_cogen_input: d, dhw })
+        (
+            bf_case(p, 50),
+            prop::bool::weighted(0.1),
+            proptest::option::weighted(0.25, crate::dhw::dhw_case(12)),
+            prop_oneof![7 => Just(vec![]), 3 => proptest::collection::vec((any::<u8>(), crate::fgen::triple()), 1..=3)],
+        )
+            .prop_map(|(base, d, dhw, cogen_lines)| Case { base, drop_cogen_input: d, dhw, cogen_lines })
             .boxed()
     }
     fn describe(c: &Case) -> Value {
@@ -67,7 +76,15 @@ impl Prop for C08 {
         }
         let inp = inputs(&e.b, &e.f)?;
         let sc = inp.scales(e.area);
-        let full = inp.factors.clone();
+        let mut full = inp.factors.clone();
+        for (sel, v) in &c.cogen_lines {
+            use cteepbd::types::{Carrier, Dest, Factor, RenNrenCo2, Source, Step};
+            let (dest, step) = [(Dest::A_RED, Step::B), (Dest::A_NEPB, Step::B), (Dest::A_RED, Step::A), (Dest::A_NEPB, Step::A), (Dest::SUMINISTRO, Step::A)][(*sel % 5) as usize];
+            full.wdata.push(Factor::new(Carrier::ELECTRICIDAD, Source::COGEN, dest, step, RenNrenCo2::new(v[0], v[1], v[2]), "definido por el usuario"));
+        }
+        if !c.cogen_lines.is_empty() {
+            ctx.label("explicit_cogen_factor_lines");
+        }
         let comps = inp.comps.clone();
         let stripped = match catch(|| full.clone().strip(&comps)) {
             Ok(s) => s,
